@@ -276,10 +276,66 @@ Theorem C12_excess_trimmed : forall size evs,
   rf_is_full size (pool_run size evs) = true -> rf_excess (pool_run size evs) = [].
 Proof. exact pool_run_trimmed. Qed.
 
-(* (the acceptor's definition unfolded: a definitional lemma, stated for the record) *)
-Theorem C12_refill_ok_sound : forall size evs final, refill_ok size evs final = true ->
-  map conn_shard (concat (rf_conns (pool_run size evs))) = final.
-Proof. exact refill_ok_sound. Qed.
+(* accepted by refill_ok (valid ShardInfo in the history): the pool the REQUESTS see after the history
+   (rf_view, well formed) consists of connections with exactly the observed server-side shards *)
+Theorem C12_refill_ok_sound : forall size evs final,
+  Forall event_ok evs -> refill_ok size evs final = true ->
+  pool_wf (rf_view (pool_run size evs)) /\
+  map conn_shard (pool_conns (rf_view (pool_run size evs))) = final.
+Proof. exact refill_ok_view. Qed.
+
+(* accepted by refill_closed_ok <-> the pool connections the client closed are, as (shard, shard count)
+   pairs, a permutation of the connections the model lets go along the history *)
+Theorem C12_refill_closed_ok_perm : forall size evs closed,
+  refill_closed_ok size evs closed = true <->
+  Permutation.Permutation (map conn_key (refill_released size rf_init evs)) closed.
+Proof. exact refill_closed_ok_perm. Qed.
+
+(* what the refiller model lets go, step by step (every released connection of a history is released
+   by one of its steps: C12_released_step) -- without a resharding (the new connection reports the
+   pool's sharder):
+   a connection that sits in a slot is never let go; *)
+Theorem C12_slot_conn_kept : forall size r c rq x,
+  sharder_eqb (rf_sharder r) (conn_sharder c) = true ->
+  In x (concat (rf_conns r)) -> ~ In x (released_step size r (EvReady c rq)).
+Proof. exact slot_conn_released_only_by_reshard. Qed.
+
+(* the new connection is let go only if its shard (PerShard) / the node (PerHost) is at its target,
+   never when it is under-filled: then it is filed under the shard the server reported; *)
+Theorem C12_new_conn_released_only_at_target : forall size r c rq,
+  rf_wf r -> conn_ok c -> sharder_eqb (rf_sharder r) (conn_sharder c) = true ->
+  In c (released_step size r (EvReady c rq)) -> at_target size r c = true.
+Proof. exact new_conn_released_only_at_target. Qed.
+
+Theorem C12_under_target_accepted : forall size r c rq,
+  rf_wf r -> conn_ok c -> sharder_eqb (rf_sharder r) (conn_sharder c) = true -> at_target size r c = false ->
+  In c (nth (N.to_nat (conn_shard c)) (rf_conns (pool_step size r (EvReady c rq))) []).
+Proof. exact under_target_accepted. Qed.
+
+(* a connection waiting in the excess list is let go only when the pool has become full or the list
+   would outgrow its limit *)
+Theorem C12_excess_released_only_when_full : forall size r c rq x,
+  sharder_eqb (rf_sharder r) (conn_sharder c) = true ->
+  In x (rf_excess r) -> In x (released_step size r (EvReady c rq)) ->
+  rf_is_full size (handle_ready size r c rq) = true \/
+  (excess_limit size r < S (List.length (rf_excess r)))%nat.
+Proof. exact excess_released_only_when_full. Qed.
+
+Theorem C12_released_step : forall size r evs x, In x (refill_released size r evs) ->
+  exists pre e post, evs = pre ++ e :: post /\
+    In x (released_step size (fold_left (pool_step size) pre r) e).
+Proof. exact refill_released_step. Qed.
+
+(* the excess list never outgrows its limit after any history; the limit is 10 x the shard count
+   (at most 655 350 for a u16 shard count: nothing overflows) and 0 under PerHost *)
+Theorem C12_excess_bounded : forall size evs,
+  (List.length (rf_excess (pool_run size evs)) <= excess_limit size (pool_run size evs))%nat.
+Proof. exact pool_run_excess_bounded. Qed.
+
+Theorem C12_excess_limit_bound : forall size r,
+  match rf_sharder r with Some (nr, _) => (nr <= 65535)%N | None => True end ->
+  (N.of_nat (excess_limit size r) <= 655350)%N /\ (forall n, size = PerHost n -> excess_limit size r = 0%nat).
+Proof. exact excess_limit_bound. Qed.
 
 (* no usable owner in the specification's sense (owners: spec_replicas / the tablet's list) => the
    model has no replica candidate, so C12_no_replica_nodes applies: e.g. a tablet naming only
@@ -534,6 +590,39 @@ Example C12_ex_reshard :
   refill_closed_ok (PerShard 1) evs [(0, 4); (3, 4); (0, 2)]%N = false.
 Proof. repeat split; vm_compute; reflexivity. Qed.
 
+(* duplicate tokens: the only hypothesis on the ring is sorted_weak, so every theorem above covers rings
+   on which nodes share a token (here 1, 2 and 3 all own token 10; stable order = insertion order) *)
+Definition ex_dup_ring : ring N := sort_ring [(10, 1%N); (10, 2%N); (10, 3%N); (20, 3%N)].
+Definition ex_cl_dup : cluster :=
+  mkCluster ex_dcf ex_rackf ex_dup_ring [(0%N, Simple 2)] [] (fun _ => true) ex_pool Tablets.info_empty.
+Example C12_ex_dup_tokens :
+  sorted_weak (c_ring ex_cl_dup) /\ cluster_ok ex_cl_dup /\ keys_ok ex_cl_dup /\
+  spec_replicas ex_dcf ex_rackf ex_dup_ring 1634052884888577606 (Simple 2) None = [1; 2]%N /\
+  spec_replicas ex_dcf ex_rackf ex_dup_ring 10 (Simple 2) None = [1; 2]%N /\
+  route ex_cl_dup ex_cho ex_shuf (ex_cfg PAny) (ex_stmt 0) ex_values = Ok (Some (1%N, mkConn 3 (Some (3%N, 4%N, 12%N)))) /\
+  route_ok ex_cl_dup (ex_cfg PAny) (ex_stmt 0) ex_values (Some (2%N, 0%N)) = true /\
+  route_ok ex_cl_dup (ex_cfg PAny) (ex_stmt 0) ex_values (Some (3%N, 0%N)) = false.
+Proof.
+  split; [apply sort_ring_sorted|]. split.
+  { split.
+    - intros n. apply pool_wfb_sound. cbn [ex_cl_dup c_pool]. destruct n as [|[[|[]|]|[|[]|]|]]; vm_compute; reflexivity.
+    - intros n. discriminate. }
+  split; [intros k s; cbn; destruct (N.eqb 0 k); [intros [= <-]; exact I|discriminate]|].
+  repeat split; vm_compute; reflexivity.
+Qed.
+
+(* the step theorems on a concrete refiller: shard 0 at target, shard 1 under-filled *)
+Example C12_ex_release :
+  let c (i s : N) := mkConn i (Some (s, 2, 0)%N) in
+  let r := pool_run (PerShard 1) [EvReady (c 1%N 0%N) false] in
+  at_target (PerShard 1) r (c 2%N 0%N) = true /\ at_target (PerShard 1) r (c 3%N 1%N) = false /\
+  released_step (PerShard 1) r (EvReady (c 2%N 0%N) true) = [c 2%N 0%N] /\
+  released_step (PerShard 1) r (EvReady (c 2%N 0%N) false) = [] /\
+  released_step (PerShard 1) r (EvReady (c 3%N 1%N) true) = [] /\
+  released_step (PerShard 1) (pool_step (PerShard 1) r (EvReady (c 2%N 0%N) false)) (EvReady (c 3%N 1%N) true) = [c 2%N 0%N] /\
+  excess_limit (PerShard 1) r = 20%nat /\ excess_limit (PerHost 3) r = 0%nat.
+Proof. repeat split; vm_compute; reflexivity. Qed.
+
 Print Assumptions C12_token.
 Print Assumptions C12_first_target.
 Print Assumptions C12_shard_u16.
@@ -554,6 +643,14 @@ Print Assumptions C12_tablets_uncovered.
 Print Assumptions C12_tablets_unknown_hosts.
 Print Assumptions C12_excess_trimmed.
 Print Assumptions C12_refill_ok_sound.
+Print Assumptions C12_refill_closed_ok_perm.
+Print Assumptions C12_slot_conn_kept.
+Print Assumptions C12_new_conn_released_only_at_target.
+Print Assumptions C12_under_target_accepted.
+Print Assumptions C12_excess_released_only_when_full.
+Print Assumptions C12_released_step.
+Print Assumptions C12_excess_bounded.
+Print Assumptions C12_excess_limit_bound.
 Print Assumptions C12_no_usable_owner_no_cands.
 Print Assumptions C12_conn_accept_sound.
 Print Assumptions C12_conn_accept_complete.
